@@ -10,7 +10,7 @@
    (index snapshot; own-subtree short cut), PR_COMMAND_SETPARAMETERS "SUBSCRIBE:", REMOVEPARAMETERS,
    NotifySubscribersThatNodeIndexChanged/NodeIndexChanged, PushSubscriptionMessages (after every
    command, also after every sub-Message of a PR_COMMAND_BATCH), CloneDataNodeSubtree,
-   SaveNodeTreeToMessage/RestoreNodeTreeFromMessage.
+   SaveNodeTreeToMessage/RestoreNodeTreeFromMessage, DataNode::RemoveIndexEntryAt, Cleanup (detach).
 
    [config] selects, for the two places where the pinned code breaks the property, between the
    code as found and the proposed repair; the theorems are about [cfg_fixed], the
@@ -130,11 +130,21 @@ Definition drain_node (st : state) (q : path) : state :=
   fold_left (fun st k => prim_remove_entry st q k) (kids_of (st_tree st) q) st.
 
 (* parent->RemoveChild(name, this, recurse=true): v = parent ++ [name] *)
-Definition prim_remove_node (st : state) (v : path) : state :=
-  if has_node (st_tree st) v && (2 <=? length v) then
+Definition remove_child_rec (st : state) (v : path) : state :=
+  if has_node (st_tree st) v then
     let st1 := fold_left drain_node (subtree_paths (st_tree st) v) st in
     let st2 := prim_remove_entry st1 (parent_of v) (last_name v) in
     with_tree st2 (delete_subtree (st_tree st2) v)
+  else st.
+
+(* RemoveDataCallback only collects nodes below the session nodes (GetDepth() > NODE_DEPTH_SESSIONNAME) *)
+Definition prim_remove_node (st : state) (v : path) : state :=
+  if 2 <=? length v then remove_child_rec st v else st.
+
+(* DataNode::RemoveIndexEntryAt(pos, this) on the node at p, through the subclass API *)
+Definition prim_remove_entry_at (st : state) (p : path) (pos : nat) : state :=
+  if has_node (st_tree st) p then
+    let '(n', ops) := remove_index_entry_at (node_at st p) pos in put_idx st p n' ops
   else st.
 
 (* StorageReflectSession::SetDataNode(path, data, flags{ADDTOINDEX}, optInsertBefore); cur = the node reached so far *)
@@ -216,6 +226,29 @@ Fixpoint clone (cfg : config) (fuel : nat) (st : state) (s : nat) (src : path) (
       else st
   end.
 
+(* SaveNodeTreeToMessage(msg, node at src, "", true) followed by RestoreNodeTreeFromMessage(msg, dstrel, true, flags).
+   The saved Message is a value: [t0] is the tree at the time of saving.  A node's index is saved only when
+   the node has children; on restoring, the indexed children (those present) come first, in index order and
+   with ADDTOINDEX, then the others in child-table order without it. *)
+Fixpoint restore (fuel : nat) (t0 : tree) (st : state) (s : nat) (src : path) (dstrel : path) (addidx : bool) : state :=
+  match fuel with
+  | 0 => st
+  | S f =>
+      let st1 := set_data_node st s dstrel addidx BEnd in
+      let ks := kids_of t0 src in
+      let ix := match ks with [] => [] | _ => index_at t0 src end in
+      let st2 := fold_left (fun st k => if mem k ks then restore f t0 st s (src ++ [k]) (dstrel ++ [k]) true else st) ix st1 in
+      fold_left (fun st k => if mem k ix then st else restore f t0 st s (src ++ [k]) (dstrel ++ [k]) false) ks st2
+  end.
+
+(* the client of session s goes away: Cleanup() removes the session node with everything below it
+   (subscribers are notified), pushes, and drops the session's subscriptions *)
+Definition drop_session (st : state) (s : nat) : state :=
+  mkSt (st_n st) (st_tree st) (fun x => if Nat.eqb x s then [] else st_subs st x) (st_ipres st) (st_refl st) (st_pend st)
+       (fun s' p => if Nat.eqb s' s then [] else st_mirror st s' p)
+       (fun s' p => if Nat.eqb s' s then [] else st_hist st s' p)
+       (filter (fun e : event => negb (Nat.eqb (fst (fst e)) s)) (st_out st)).   (* nobody is left to receive them *)
+
 (* ------------------------------------------------------------------ commands *)
 
 Inductive cmd :=
@@ -229,7 +262,10 @@ Inductive cmd :=
 | CSetRefl (v : bool)                                         (* PR_NAME_REFLECT_TO_SELF parameter set / removed *)
 | CNoop                                                       (* anything without effect on indices *)
 | ASetDataNode (rel : path) (addidx : bool) (b : bspec)       (* subclass API SetDataNode *)
-| AClone (src : path) (dstrel : path) (addidx : bool) (b : bspec).   (* subclass API CloneDataNodeSubtree *)
+| AClone (src : path) (dstrel : path) (addidx : bool) (b : bspec)    (* subclass API CloneDataNodeSubtree *)
+| ARestore (src : path) (dstrel : path) (addidx : bool)              (* subclass API Save.. + RestoreNodeTreeFromMessage *)
+| ARemoveEntryAt (rel : path) (pos : nat)                            (* DataNode::RemoveIndexEntryAt on an own node *)
+| CDetach.                                                           (* the client closes its connection *)
 
 Definition handle (cfg : config) (st : state) (s : nat) (c : cmd) : state :=
   match c with
@@ -249,11 +285,18 @@ Definition handle (cfg : config) (st : state) (s : nat) (c : cmd) : state :=
   | CNoop => st
   | ASetDataNode rel addidx b => set_data_node st s rel addidx b
   | AClone src dstrel addidx b => clone cfg (S (length (st_tree st))) st s src dstrel addidx b
+  | ARestore src dstrel addidx =>
+      if has_node (st_tree st) src then restore (S (length (st_tree st))) (st_tree st) st s src dstrel addidx else st
+  | ARemoveEntryAt rel pos => prim_remove_entry_at st (NS s :: rel) pos
+  | CDetach => remove_child_rec st [NS s]
   end.
 
 (* one command, then AfterMessageReceivedFromGateway -> PushSubscriptionMessages *)
 Definition exec (cfg : config) (s : nat) (st : state) (c : cmd) : state :=
-  if s <? st_n st then flush (handle cfg st s c) else st.
+  if (s <? st_n st) && has_node (st_tree st) [NS s] then     (* an attached session *)
+    let st' := flush (handle cfg st s c) in
+    match c with CDetach => drop_session st' s | _ => st' end
+  else st.
 
 (* one step: session s's client sends one Message: a single command or a PR_COMMAND_BATCH (nested
    batches flatten: every leaf is followed by the push) *)
